@@ -86,14 +86,16 @@ class HyteraIPSC:
         reserved_7a = ipsc[9:16]
         timeslot = Timeslot(int.from_bytes(ipsc[16:18], "little"))
         slot_type = SlotType(int.from_bytes(ipsc[18:20], "little"))
-        color_code = int.from_bytes(ipsc[20:22], "little")
+        # color code is half-byte repeated in both bytes, ie. cc=5 is [0x55, 0x55]
+        color_code = int.from_bytes(ipsc[20:22], "little") & 0x0F
         frame_type = FrameType(int.from_bytes(ipsc[22:24], "little"))
         reserved_2a = ipsc[24:26]
         payload = byteswap_bytes(ipsc[26:60])[:-1]
         reserved_2b = ipsc[60:62]
         call_type = CallType(int.from_bytes(ipsc[62:63], "little"))
-        destination_radio_id = int.from_bytes(ipsc[63:67], "little")
-        source_radio_id = int.from_bytes(ipsc[67:71], "little")
+        # radio ids are 24-bit, stored in upper three bytes of U4LE
+        destination_radio_id = int.from_bytes(ipsc[63:67], "little") >> 8
+        source_radio_id = int.from_bytes(ipsc[67:71], "little") >> 8
         reserved_1 = ipsc[71:72]
         ipsc = HyteraIPSC(
             sequence_number=sequence_number,
